@@ -265,7 +265,7 @@ func connLostDuringReprepare(c *Ctx, idx int) {
 	r := c.R
 	hosts := 2 + idx%3
 	idem := idx%2 == 0
-	kind := []ReqKind{KExecute, KBatch}[(idx/2)%2]
+	kind := KExecute // (the standard BATCH carries no prepared child: nothing would be re-prepared)
 	key := fmt.Sprintf("conn-lost-during-reprepare/h%d/idem=%v/%v", hosts, idem, kind)
 	scenario := map[string]interface{}{"kind": "conn-lost-during-reprepare", "idx": idx}
 	c.Step("c05 %s", key)
@@ -276,7 +276,7 @@ func connLostDuringReprepare(c *Ctx, idx int) {
 	}
 	defer bed.Close()
 	bed.OnHook(nil)
-	var dropped int32
+	dropped := int32(1) // armed (set to 0) once the client's own PREPAREs are through
 	bed.Cluster.SetScript(func(a *fakecass.Arrival) fakecass.Outcome {
 		// the first re-prepare (a PREPARE of a standard statement carries no token) loses its connection unanswered
 		if a.OpCode == primitive.OpCodePrepare && a.N == 0 && atomic.CompareAndSwapInt32(&dropped, 0, 1) {
@@ -286,7 +286,7 @@ func connLostDuringReprepare(c *Ctx, idx int) {
 		}
 		return fakecass.Outcome{}
 	})
-	cl, err := bed.ReadyClient(primitive.ProtocolVersion4, []string{"", "lz4"}[(idx/4)%2])
+	cl, err := bed.ReadyClient(primitive.ProtocolVersion4, []string{"", "lz4"}[(idx/2)%2])
 	if err != nil {
 		r.Inconc("conn-lost-during-reprepare: handshake: " + err.Error())
 		return
@@ -320,10 +320,10 @@ func connLostDuringReprepare(c *Ctx, idx int) {
 		r.Violate(mon.Violation{Signature: "C05/conn-lost-during-reprepare/no-reply", Detail: fmt.Sprintf("%s: no reply (attempts %s)", key, describe(attempts)), Scenario: scenario, Witness: attempts})
 		return
 	}
-	ri := replyInfoComp([]string{"", "lz4"}[(idx/4)%2], reply)
+	ri := replyInfoComp([]string{"", "lz4"}[(idx/2)%2], reply)
 	switch {
 	case idem && (ri.Kind != "Rows" && !strings.HasPrefix(ri.Kind, "Void") || len(reached) < 2):
-		r.Violate(mon.Violation{Signature: "C05/conn-lost-during-reprepare/idempotent-not-failed-over", Detail: fmt.Sprintf("%s: the connection was lost while the proxy re-prepared the statement on the first host; the other host(s) are healthy and the policy prescribes the next host for an idempotent request: the client got %s %q after reaching %d host(s) (attempts %s)", key, ri.Kind, ri.ErrMsg, len(reached), describe(attempts)), Scenario: scenario, Witness: attempts})
+		r.Violate(mon.Violation{Signature: "C05/conn-lost-during-reprepare/idempotent-not-failed-over", Detail: fmt.Sprintf("%s: the connection was lost while the proxy re-prepared the statement on the first host; the other host(s) are healthy and the policy prescribes the next host for an idempotent request: the client got %s %q after reaching %d host(s) (attempts %s)", key, ri.Kind, ri.ErrMsg, len(reached), describe(attempts)), Scenario: scenario, Witness: tail(bed.Log.Snapshot()[mark:], 80)})
 	case !idem && len(reached) > 1:
 		r.Violate(mon.Violation{Signature: "C05/conn-lost-during-reprepare/non-idempotent-sent-to-another-host", Detail: fmt.Sprintf("%s: the connection was lost while the proxy re-prepared the statement on the first host; the policy prescribes no retry after a connection loss for a request that is not idempotent, but it reached %d hosts and the client got %s %q (attempts %s)", key, len(reached), ri.Kind, ri.ErrMsg, describe(attempts)), Scenario: scenario, Witness: attempts})
 	case !idem && !strings.HasPrefix(ri.Kind, "Error"):
@@ -412,4 +412,11 @@ func planAcrossCounterWrap(c *Ctx, idx int) {
 		}
 	}
 	r.NonTrivial(key)
+}
+
+func tail(evs []mon.Event, n int) []mon.Event {
+	if len(evs) > n {
+		return evs[len(evs)-n:]
+	}
+	return evs
 }
